@@ -123,6 +123,7 @@ type Contract struct {
 	Pure     bool            // no heap effect (deps / trusted)
 	Trusted  bool            // body not verified (deps are always trusted)
 	Abstract bool            // assumed model of an interface method: no impl check
+	NoCallbacks bool         // closure bodies this function passes as callbacks are not verified here (stated as unverified)
 	PureCalls bool           // calls of function-typed parameters have no heap effect (assumed)
 	Callbacks []CallbackSpec
 	Inline   bool
@@ -207,7 +208,7 @@ type tok struct {
 var clauseKW = map[string]bool{
 	"requires": true, "ensures": true, "modifies": true, "loop": true, "invariant": true, "decreases": true,
 	"property": true, "wraps": true, "func": true, "pred": true, "pure": true, "trusted": true, "inline": true,
-	"frame": true, "callers": true, "type": true, "package": true, "nosafety": true, "note": true, "recursion": true, "ghost": true, "argpolicy": true, "ufunc": true, "abstract": true, "axiom": true, "purecalls": true, "callback": true,
+	"frame": true, "callers": true, "type": true, "package": true, "nosafety": true, "note": true, "recursion": true, "ghost": true, "argpolicy": true, "ufunc": true, "abstract": true, "axiom": true, "purecalls": true, "nocallbacks": true, "callback": true,
 }
 
 func lexSpec(lines []string, lineNos []int) ([]tok, error) {
@@ -750,6 +751,8 @@ func parseSpecFile(path string, defaultPkg string) (sf *SpecFile, err error) {
 				cb.Cond = p.expr(1)
 			}
 			cur.Callbacks = append(cur.Callbacks, cb)
+		case "nocallbacks":
+			cur.NoCallbacks = true
 		case "purecalls":
 			// function-typed parameters are assumed free of heap effects (listed among the assumptions)
 			cur.PureCalls = true
